@@ -1,855 +1,197 @@
 /-
-The Lean model `lower` of the AST -> SSA translation (compiler/ast/ssagen.go)
-for the straight-line fragment, and the proof that the SSA evaluator
-`ssaEval` on its output agrees with the reference interpreter
-(`lower_correct_partial`, used by Props/C03.lean).
+Whole functions: the SSA program produced by `Ssa.lower` (Model/MpclLower.lean,
+the Lean model of the AST -> SSA translation compiler/ast/ssagen.go) evaluated
+by `ssaEval` agrees with the reference interpreter `runRaw`
+(`lower_sound`, `lower_total`, `lower_correct_partial`; used by Props/C03.lean).
+
+Pieces: Proofs/MpclSsaBase.lean (stores, environments), MpclSsaExpr.lean
+(expressions), MpclSsaTree.lean (phis: return selection, branch merges),
+MpclSsaStmt.lean (statements, by induction on the fuel), MpclSsaOk.lean
+(well-formedness and totality of the emitted code).
 -/
-import MpcVerif.Model.MpclSsa
-import MpcVerif.Proofs.Mpcl
+import MpcVerif.Proofs.MpclSsaOk
 
 namespace Mpc.Mpcl.Ssa
 open Mpc.Mpcl
 
-abbrev NameMap := List (String × (Nat × Ty))
+theorem decode_mod {t : Ty} {w : Nat} (h : sbits t = some w) (a : Nat) : t.decode (a % 2 ^ w) = t.decode a := by
+  cases t <;> simp [sbits] at h <;> subst h
+  · simp [Ty.decode]
+  · simp [Ty.decode]
+  · simp [Ty.decode]
 
-def NameMap.find : NameMap → String → Option (Nat × Ty)
-  | [], _ => none
-  | (y, r) :: rest, x => if x = y then some r else NameMap.find rest x
-
-def numTy : Ty → Option (Bool × Nat)
-  | .int w => some (true, w)
-  | .uint w => some (false, w)
-  | _ => none
-
-def lowerOp : BinOp → Option SOp
-  | .add => some .add | .sub => some .sub | .band => some .band | .bor => some .bor | .bxor => some .bxor
-  | _ => none
-
-/-- Model of ast.Binary.SSA / ast.Call.cast / VariableRef.SSA for the fragment:
-operand code first (left to right), then one instruction into a fresh value.
-A cast is `smov` iff both types are signed and the target is wider, else `mov`
-(exactly ssagen.go Call.cast); the cast intN -> wider uintM is NOT in the
-fragment (there the real `mov` zero-extends: known deviation
-C03-cast-int-to-wider-uint). -/
-def lowerE (nm : NameMap) : Expr → Nat → Option (SArg × Ty × List SInstr × Nat)
-  | .var x, next =>
-    match nm.find x with
-    | some (id, t) =>
-      match numTy t with
-      | some (_, w) => some (.var id w, t, [], next)
-      | none => none
-    | none => none
-  | .bin op a b, next =>
-    match lowerOp op, lowerE nm a next with
-    | some sop, some (aa, ta, ca, n1) =>
-      match lowerE nm b n1 with
-      | some (ba, tb, cb, n2) =>
-        match numTy ta, numTy tb with
-        | some (s, w), some (s', w') =>
-          if s = s' ∧ w = w' then
-            some (.var n2 w, ta, ca ++ cb ++ [⟨sop, [aa, ba], some (n2, w)⟩], n2 + 1)
-          else none
-        | _, _ => none
-      | none => none
-    | _, _ => none
-  | .cast t a, next =>
-    match lowerE nm a next with
-    | some (aa, ta, ca, n1) =>
-      match numTy ta, numTy t with
-      | some (s, w), some (s', w') =>
-        if s && !s' && decide (w < w') then none
-        else some (.var n1 w', t,
-          ca ++ [⟨if s && s' && decide (w < w') then .smov else .mov, [aa], some (n1, w')⟩], n1 + 1)
-      | _, _ => none
-    | none => none
-  | _, _ => none
-
-/-- Interpreter environment (one scope) and SSA store agree on every name. -/
-def Rel (nm : NameMap) (env : Env) (st : Nat → Nat) : Prop :=
-  ∀ x id t, nm.find x = some (id, t) →
-    ∃ s w v, numTy t = some (s, w) ∧ v < 2 ^ w ∧ env.lookup x = some (.num s w v) ∧ st id = v
-
-def Below (nm : NameMap) (n : Nat) : Prop := ∀ x id t, nm.find x = some (id, t) → id < n
-
-def NoRet (code : List SInstr) : Prop := ∀ i ∈ code, i.op ≠ .ret
-
-theorem ssaSteps_append (c1 c2 : List SInstr) (st : Nat → Nat) :
-    ssaSteps (c1 ++ c2) st = (ssaSteps c1 st).bind (ssaSteps c2) := by
-  induction c1 generalizing st with
-  | nil => simp [ssaSteps]
-  | cons i rest ih =>
-    simp only [List.cons_append, ssaSteps]
-    cases i.out with
-    | none => simp
-    | some o =>
-      obtain ⟨id, ow⟩ := o
-      simp only
-      cases evalOp i.op (i.ins.map (argVal st)) ow with
-      | none => simp
-      | some v => simp [ih]
-
-theorem ssaRun_append (c1 c2 : List SInstr) (h : NoRet c1) (st : Nat → Nat) :
-    ssaRun (c1 ++ c2) st = (ssaSteps c1 st).bind (ssaRun c2) := by
-  induction c1 generalizing st with
-  | nil => simp [ssaSteps]
-  | cons i rest ih =>
-    have hi : i.op ≠ .ret := h i (by simp)
-    have hr : NoRet rest := fun j hj => h j (by simp [hj])
-    simp only [List.cons_append, ssaRun, ssaSteps, hi, if_false]
-    cases i.out with
-    | none => simp
-    | some o =>
-      obtain ⟨id, ow⟩ := o
-      simp only
-      cases evalOp i.op (i.ins.map (argVal st)) ow with
-      | none => simp
-      | some v => simp [ih hr]
-
-
-
-theorem pow_le_of_lt {w w' : Nat} (h : w ≤ w') : 2 ^ w ≤ 2 ^ w' := Nat.pow_le_pow_right (by decide) h
-
-/-- Value-level agreement of the five binary operators. -/
-theorem binop_evalOp (op : BinOp) (sop : SOp) (h : lowerOp op = some sop) (s : Bool) (w a b : Nat)
-    (ha : a < 2 ^ w) (hb : b < 2 ^ w) :
-    ∃ v, v < 2 ^ w ∧ binop op (.num s w a) (.num s w b) = some (.num s w v) ∧
-      evalOp sop [(a, w), (b, w)] w = some v := by
-  have hpos : 0 < 2 ^ w := Nat.pos_of_ne_zero (by simp)
-  cases op <;> simp [lowerOp] at h <;> subst h
-  · exact ⟨(a + b) % 2 ^ w, Nat.mod_lt _ hpos, by simp [binop, arith, wrap], by simp [evalOp]⟩
-  · exact ⟨(2 ^ w - b + a) % 2 ^ w, Nat.mod_lt _ hpos, by simp [binop, arith, wrap],
-      by simp [evalOp, Nat.mod_eq_of_lt hb]⟩
-  · have hl : a &&& b < 2 ^ w := Nat.lt_of_le_of_lt Nat.and_le_left ha
-    exact ⟨a &&& b, hl, by simp [binop, arith], by simp [evalOp, Nat.mod_eq_of_lt hl]⟩
-  · have hl : a ||| b < 2 ^ w := Nat.or_lt_two_pow ha hb
-    exact ⟨a ||| b, hl, by simp [binop, arith], by simp [evalOp, Nat.mod_eq_of_lt hl]⟩
-  · have hl : a ^^^ b < 2 ^ w := Nat.xor_lt_two_pow ha hb
-    exact ⟨a ^^^ b, hl, by simp [binop, arith], by simp [evalOp, Nat.mod_eq_of_lt hl]⟩
-
-/-- Value-level agreement of the casts of the fragment. -/
-theorem cast_evalOp (s s' : Bool) (w w' a : Nat) (ha : a < 2 ^ w)
-    (hx : ¬ (s = true ∧ s' = false ∧ w < w')) :
-    ∃ v, v < 2 ^ w' ∧ castNum s w a s' w' = .num s' w' v ∧
-      evalOp (if s && s' && decide (w < w') then .smov else .mov) [(a, w)] w' = some v := by
-  have hpos : 0 < 2 ^ w' := Nat.pos_of_ne_zero (by simp)
-  by_cases hle : w' ≤ w
-  · have hn : ¬ w < w' := by omega
-    exact ⟨a % 2 ^ w', Nat.mod_lt _ hpos, by simp [castNum, hle, wrap], by simp [hn, evalOp]⟩
-  · have hlt : w < w' := by omega
-    cases s with
-    | false =>
-      have hv : a < 2 ^ w' := Nat.lt_of_lt_of_le ha (pow_le_of_lt (by omega))
-      exact ⟨a, hv, by simp [castNum, hle], by simp [evalOp, Nat.mod_eq_of_lt hv]⟩
-    | true =>
-      cases s' with
-      | false => exact absurd ⟨rfl, rfl, hlt⟩ hx
-      | true =>
-        refine ⟨ofInt w' (toInt w a), ?_, by simp [castNum, hle], by simp [hlt, evalOp, wrapI]⟩
-        rw [ofInt_eq]; exact (BitVec.ofInt w' _).isLt
-
-theorem lowerE_correct (P : Prog) : ∀ (e : Expr) (nm : NameMap) (next : Nat) (aa : SArg) (t : Ty)
-    (code : List SInstr) (next' : Nat) (env : Env) (st : Nat → Nat),
-    lowerE nm e next = some (aa, t, code, next') → Rel nm env st → Below nm next →
-    ∃ (s : Bool) (w v f : Nat) (st' : Nat → Nat), numTy t = some (s, w) ∧ v < 2 ^ w ∧
-      evalE P f e env = some (.num s w v) ∧ ssaSteps code st = some st' ∧ argVal st' aa = (v, w) ∧
-      (∀ id, id < next → st' id = st id) ∧ next ≤ next' ∧ NoRet code ∧
-      (∀ id b, aa = .var id b → id < next')
-  | .var x, nm, next, aa, t, code, next', env, st, h, hrel, hbel => by
-    simp only [lowerE] at h
-    cases hf : nm.find x with
-    | none => simp [hf] at h
-    | some r =>
-      obtain ⟨id, t0⟩ := r
-      simp only [hf] at h
-      obtain ⟨s, w, v, hty, hv, hlook, hst⟩ := hrel x id t0 hf
-      simp only [hty] at h
-      cases h
-      refine ⟨s, w, v, 1, st, hty, hv, by simp [evalE, hlook], by simp [ssaSteps],
-        by simp [argVal, hst, SStore.get], fun _ _ => rfl, Nat.le_refl _, ?_, ?_⟩
-      · intro i hi; cases hi
-      · intro id' b hb; cases hb; exact hbel x id t hf
-  | .bin op a b, nm, next, aa, t, code, next', env, st, h, hrel, hbel => by
-    simp only [lowerE] at h
-    cases hop : lowerOp op with
-    | none => simp [hop] at h
-    | some sop =>
-      cases hla : lowerE nm a next with
-      | none => simp [hop, hla] at h
-      | some ra =>
-        obtain ⟨aa1, ta, ca, n1⟩ := ra
-        simp only [hop, hla] at h
-        cases hlb : lowerE nm b n1 with
-        | none => simp [hlb] at h
-        | some rb =>
-          obtain ⟨ba, tb, cb, n2⟩ := rb
-          simp only [hlb] at h
-          obtain ⟨s1, w1, v1, f1, st1, hty1, hv1, he1, hs1, harg1, hkeep1, hle1, hnr1, hid1⟩ :=
-            lowerE_correct P a nm next aa1 ta ca n1 env st hla hrel hbel
-          have hrel1 : Rel nm env st1 := by
-            intro x id t0 hf
-            obtain ⟨s, w, v, a1, a2, a3, a4⟩ := hrel x id t0 hf
-            exact ⟨s, w, v, a1, a2, a3, by rw [hkeep1 id (hbel x id t0 hf)]; exact a4⟩
-          have hbel1 : Below nm n1 := fun x id t0 hf => Nat.lt_of_lt_of_le (hbel x id t0 hf) hle1
-          obtain ⟨s2, w2, v2, f2, st2, hty2, hv2, he2, hs2, harg2, hkeep2, hle2, hnr2, hid2⟩ :=
-            lowerE_correct P b nm n1 ba tb cb n2 env st1 hlb hrel1 hbel1
-          simp only [hty1, hty2] at h
-          split at h
-          · rename_i hsw
-            obtain ⟨hs, hw⟩ := hsw
-            subst hs; subst hw
-            cases h
-            obtain ⟨v, hv, hbin, hev⟩ := binop_evalOp op sop hop s1 w1 v1 v2 hv1 hv2
-            -- the value of the first operand survives the second operand's code
-            have harg1' : argVal st2 aa1 = (v1, w1) := by
-              cases aa1 with
-              | var id b =>
-                have := hid1 id b rfl
-                simp only [argVal, SStore.get] at harg1 ⊢
-                rw [hkeep2 id this]; exact harg1
-              | const a1 a2 a3 a4 a5 => simpa [argVal] using harg1
-              | pat a1 a2 => simpa [argVal] using harg1
-              | k a1 => simpa [argVal] using harg1
-            refine ⟨s1, w1, v, max f1 f2 + 1, fun j => if j = n2 then v else st2 j, hty1, hv, ?_, ?_, ?_, ?_, ?_, ?_, ?_⟩
-            · have e1 := evalE_mono P (Nat.le_max_left f1 f2) a env _ he1
-              have e2 := evalE_mono P (Nat.le_max_right f1 f2) b env _ he2
-              simp only [evalE, e1, e2, Option.bind_some]
-              cases op <;> simp [lowerOp] at hop <;> simpa [binE] using hbin
-            · rw [ssaSteps_append, ssaSteps_append, hs1]
-              simp only [Option.bind_some, hs2]
-              simp [ssaSteps, harg1', harg2, hev, SStore.set]
-            · simp [argVal, SStore.get]
-            · intro id hid
-              have : id ≠ n2 := by omega
-              simp only [this, if_false]
-              rw [hkeep2 id (by omega), hkeep1 id hid]
-            · omega
-            · intro i hi
-              simp only [List.mem_append, List.mem_singleton] at hi
-              rcases hi with (hi | hi) | hi
-              · exact hnr1 i hi
-              · exact hnr2 i hi
-              · subst hi
-                cases op <;> simp [lowerOp] at hop <;> subst hop <;> simp
-            · intro id b hb; cases hb; omega
-          · cases h
-  | .cast t0 a, nm, next, aa, t, code, next', env, st, h, hrel, hbel => by
-    simp only [lowerE] at h
-    cases hla : lowerE nm a next with
-    | none => simp [hla] at h
-    | some ra =>
-      obtain ⟨aa1, ta, ca, n1⟩ := ra
-      simp only [hla] at h
-      obtain ⟨s1, w1, v1, f1, st1, hty1, hv1, he1, hs1, harg1, hkeep1, hle1, hnr1, hid1⟩ :=
-        lowerE_correct P a nm next aa1 ta ca n1 env st hla hrel hbel
-      simp only [hty1] at h
-      cases hty0 : numTy t0 with
-      | none => simp [hty0] at h
-      | some r0 =>
-        obtain ⟨s', w'⟩ := r0
-        simp only [hty0] at h
-        split at h
-        · cases h
-        · rename_i hx
-          cases h
-          have hx' : ¬ (s1 = true ∧ s' = false ∧ w1 < w') := by
-            intro ⟨h1, h2, h3⟩; apply hx; simp [h1, h2, h3]
-          obtain ⟨v, hv, hcast, hev⟩ := cast_evalOp s1 s' w1 w' v1 hv1 hx'
-          have hcv : castVal t0 (.num s1 w1 v1) = some (.num s' w' v) := by
-            cases t0 <;> simp [numTy] at hty0
-            · obtain ⟨h1, h2⟩ := hty0; subst h1; subst h2; simp [castVal, hcast]
-            · obtain ⟨h1, h2⟩ := hty0; subst h1; subst h2; simp [castVal, hcast]
-          refine ⟨s', w', v, f1 + 1, fun j => if j = n1 then v else st1 j, hty0, hv, ?_, ?_, ?_, ?_, ?_, ?_, ?_⟩
-          · simp [evalE, he1, hcv]
-          · rw [ssaSteps_append, hs1]
-            have hev' := hev
-            simp only [Bool.and_eq_true, decide_eq_true_eq] at hev'
-            simp [ssaSteps, harg1, hev', SStore.set]
-          · simp [argVal, SStore.get]
-          · intro id hid
-            have : id ≠ n1 := by omega
-            simp only [this, if_false]
-            exact hkeep1 id hid
-          · omega
-          · intro i hi
-            simp only [List.mem_append, List.mem_singleton] at hi
-            rcases hi with hi | hi
-            · exact hnr1 i hi
-            · subst hi; split <;> simp
-          · intro id b hb; cases hb; omega
-  | .lit _ _, _, _, _, _, _, _, _, _, h, _, _ => by simp [lowerE] at h
-  | .shift _ _ _, _, _, _, _, _, _, _, _, h, _, _ => by simp [lowerE] at h
-  | .not _, _, _, _, _, _, _, _, _, h, _, _ => by simp [lowerE] at h
-  | .neg _, _, _, _, _, _, _, _, _, h, _, _ => by simp [lowerE] at h
-  | .idx _ _, _, _, _, _, _, _, _, _, h, _, _ => by simp [lowerE] at h
-  | .fld _ _, _, _, _, _, _, _, _, _, h, _, _ => by simp [lowerE] at h
-  | .call _ _, _, _, _, _, _, _, _, _, h, _, _ => by simp [lowerE] at h
-
-
-
-/-! ### Statements -/
-
-theorem execS_mono (P : Prog) {f f' : Nat} (hle : f ≤ f') (s : Stmt) (env : Env) (o : Outcome)
-    (h : execS P f s env = some o) : execS P f' s env = some o := by
-  induction hle with
-  | refl => exact h
-  | step _ ih => exact (fuel_mono_succ P _).2.1 s env o ih
-
-theorem Scope.lookup_set {sc sc' : Scope} {x : String} {n : Val} (h : Scope.set sc x n = some sc') (y : String) :
-    Scope.lookup sc' y = if y = x then some n else Scope.lookup sc y := by
-  induction sc generalizing sc' with
-  | nil => simp [Scope.set] at h
-  | cons p r ih =>
-    obtain ⟨z, v⟩ := p
-    simp only [Scope.set] at h
-    by_cases hxz : x = z
-    · simp only [hxz, if_true] at h
-      cases h
-      subst hxz
-      by_cases hy : y = x <;> simp [Scope.lookup, hy]
-    · simp only [hxz, if_false] at h
-      cases hr : Scope.set r x n with
-      | none => simp [hr] at h
-      | some r' =>
-        simp only [hr, Option.map_some] at h
-        cases h
-        have := ih hr
-        by_cases hyz : y = z
-        · subst hyz
-          have hne : ¬ y = x := fun e => hxz e.symm
-          simp [Scope.lookup, hne]
-        · simp [Scope.lookup, hyz, this]
-
-theorem Scope.set_isSome {sc : Scope} {x : String} {v : Val} (n : Val) (h : Scope.lookup sc x = some v) :
-    ∃ sc', Scope.set sc x n = some sc' := by
-  induction sc with
-  | nil => simp [Scope.lookup] at h
-  | cons p r ih =>
-    obtain ⟨z, w⟩ := p
-    simp only [Scope.lookup] at h
-    by_cases hxz : x = z
-    · exact ⟨(z, n) :: r, by simp [Scope.set, hxz]⟩
-    · simp only [hxz, if_false] at h
-      obtain ⟨r', hr⟩ := ih h
-      exact ⟨(z, w) :: r', by simp [Scope.set, hxz, hr]⟩
-
-/-- Assignment to a variable bound in the innermost scope. -/
-theorem Env.set_top {sc : Scope} {rest : Env} {x : String} {v : Val} (n : Val)
-    (h : Scope.lookup sc x = some v) :
-    ∃ sc', Env.set (sc :: rest) x n = some (sc' :: rest) ∧
-      ∀ y, Env.lookup (sc' :: rest) y = if y = x then some n else Env.lookup (sc :: rest) y := by
-  obtain ⟨sc', hs⟩ := Scope.set_isSome n h
-  refine ⟨sc', by simp [Env.set, hs], ?_⟩
-  intro y
-  have := Scope.lookup_set hs y
-  simp only [Env.lookup, this]
-  by_cases hy : y = x <;> simp [hy]
-
-/-- All names of `nm` live in the single scope `sc` of the environment. -/
-def RelTop (nm : NameMap) (sc : Scope) (st : Nat → Nat) : Prop :=
-  ∀ x id t, nm.find x = some (id, t) →
-    ∃ s w v, numTy t = some (s, w) ∧ v < 2 ^ w ∧ Scope.lookup sc x = some (.num s w v) ∧ st id = v
-
-theorem RelTop.rel {nm : NameMap} {sc : Scope} {st : Nat → Nat} (h : RelTop nm sc st) : Rel nm [sc] st := by
-  intro x id t hf
-  obtain ⟨s, w, v, a1, a2, a3, a4⟩ := h x id t hf
-  exact ⟨s, w, v, a1, a2, by simp [Env.lookup, a3], a4⟩
-
-/-- Model of VariableDef.SSA / Assign.SSA for the fragment: the value is moved
-into a fresh version of the variable. -/
-def lowerS (nm : NameMap) (next : Nat) : Stmt → Option (NameMap × List SInstr × Nat)
-  | .decl x t (some e) =>
-    match lowerE nm e next with
-    | some (aa, te, code, n1) =>
-      match numTy t, numTy te with
-      | some (s, w), some (s', w') =>
-        if s = s' ∧ w = w' then some ((x, (n1, t)) :: nm, code ++ [⟨.mov, [aa], some (n1, w)⟩], n1 + 1) else none
-      | _, _ => none
-    | none => none
-  | .assign [⟨x, []⟩] e =>
-    match nm.find x, lowerE nm e next with
-    | some (_, tx), some (aa, te, code, n1) =>
-      match numTy tx, numTy te with
-      | some (s, w), some (s', w') =>
-        if s = s' ∧ w = w' then some ((x, (n1, tx)) :: nm, code ++ [⟨.mov, [aa], some (n1, w)⟩], n1 + 1) else none
-      | _, _ => none
-    | _, _ => none
-  | _ => none
-
-theorem numTy_eq {t t' : Ty} {s w} (h : numTy t = some (s, w)) (h' : numTy t' = some (s, w)) : t = t' := by
-  cases t <;> cases t' <;> simp [numTy] at h h' <;> (obtain ⟨a, b⟩ := h; obtain ⟨c, d⟩ := h'; subst_vars; first | rfl | simp_all)
-
-theorem lowerS_correct (P : Prog) (s : Stmt) (nm nm' : NameMap) (next next' : Nat) (code : List SInstr)
-    (sc : Scope) (st : Nat → Nat) (h : lowerS nm next s = some (nm', code, next'))
-    (hrel : RelTop nm sc st) (hbel : Below nm next) :
-    ∃ f sc' st', execS P f s [sc] = some (.normal [sc']) ∧ ssaSteps code st = some st' ∧
-      RelTop nm' sc' st' ∧ Below nm' next' ∧ NoRet code := by
-  cases s with
-  | decl x t init =>
-    cases init with
-    | none => simp [lowerS] at h
-    | some e =>
-      simp only [lowerS] at h
-      cases hl : lowerE nm e next with
-      | none => simp [hl] at h
-      | some r =>
-        obtain ⟨aa, te, ce, n1⟩ := r
-        simp only [hl] at h
-        obtain ⟨s1, w1, v1, f1, st1, hty1, hv1, he1, hs1, harg1, hkeep1, hle1, hnr1, hid1⟩ :=
-          lowerE_correct P e nm next aa te ce n1 [sc] st hl hrel.rel hbel
-        cases hty : numTy t with
-        | none => simp [hty] at h
-        | some r0 =>
-          obtain ⟨s0, w0⟩ := r0
-          simp only [hty, hty1] at h
-          split at h
-          · rename_i hsw
-            obtain ⟨e1, e2⟩ := hsw
-            subst e1; subst e2
-            cases h
-            have hmov : evalOp .mov [(v1, w0)] w0 = some v1 := by simp [evalOp, Nat.mod_eq_of_lt hv1]
-            have hhas : (Val.num s0 w0 v1).hasTy t = true := by
-              cases t <;> simp [numTy] at hty <;> (obtain ⟨a, b⟩ := hty; subst a; subst b; simp [Val.hasTy, hv1])
-            refine ⟨f1 + 1, (x, .num s0 w0 v1) :: sc, fun j => if j = n1 then v1 else st1 j, ?_, ?_, ?_, ?_, ?_⟩
-            · simp [execS, he1, hhas, Env.declare]
-            · rw [ssaSteps_append, hs1]
-              simp [ssaSteps, harg1, hmov, SStore.set]
-            · intro y id t0 hf
-              simp only [NameMap.find] at hf
-              by_cases hy : y = x
-              · simp only [hy, if_true] at hf
-                cases hf
-                exact ⟨s0, w0, v1, hty, hv1, by simp [Scope.lookup, hy], by simp⟩
-              · simp only [hy, if_false] at hf
-                obtain ⟨s, w, v, a1, a2, a3, a4⟩ := hrel y id t0 hf
-                have hlt := hbel y id t0 hf
-                have : id ≠ n1 := by omega
-                exact ⟨s, w, v, a1, a2, by simp [Scope.lookup, hy, a3], by
-                  simp only [this, if_false]; rw [hkeep1 id hlt]; exact a4⟩
-            · intro y id t0 hf
-              simp only [NameMap.find] at hf
-              by_cases hy : y = x
-              · simp only [hy, if_true] at hf; cases hf; omega
-              · simp only [hy, if_false] at hf
-                have := hbel y id t0 hf; omega
-            · intro i hi
-              simp only [List.mem_append, List.mem_singleton] at hi
-              rcases hi with hi | hi
-              · exact hnr1 i hi
-              · subst hi; simp
-          · cases h
-  | assign lvs e =>
-    match lvs, h with
-    | [⟨x, []⟩], h =>
-      simp only [lowerS] at h
-      cases hf0 : nm.find x with
-      | none => simp [hf0] at h
-      | some r =>
-        obtain ⟨id0, tx⟩ := r
-        cases hl : lowerE nm e next with
-        | none => simp [hf0, hl] at h
-        | some r =>
-          obtain ⟨aa, te, ce, n1⟩ := r
-          simp only [hf0, hl] at h
-          obtain ⟨s1, w1, v1, f1, st1, hty1, hv1, he1, hs1, harg1, hkeep1, hle1, hnr1, hid1⟩ :=
-            lowerE_correct P e nm next aa te ce n1 [sc] st hl hrel.rel hbel
-          obtain ⟨sx, wx, vx, htyx, hvx, hlookx, _⟩ := hrel x id0 tx hf0
-          simp only [htyx, hty1] at h
-          split at h
-          · rename_i hsw
-            obtain ⟨e1, e2⟩ := hsw
-            subst e1; subst e2
-            cases h
-            have hmov : evalOp .mov [(v1, wx)] wx = some v1 := by simp [evalOp, Nat.mod_eq_of_lt hv1]
-            obtain ⟨sc', hset, hlk⟩ := Env.set_top (rest := []) (.num sx wx v1) hlookx
-            refine ⟨f1 + 1, sc', fun j => if j = n1 then v1 else st1 j, ?_, ?_, ?_, ?_, ?_⟩
-            · have hl0 : Env.lookup [sc] x = some (.num sx wx vx) := by simp [Env.lookup, hlookx]
-              simp [execS, he1, assignTo, hl0, Val.update, Val.sameShape, hset]
-            · rw [ssaSteps_append, hs1]
-              simp [ssaSteps, harg1, hmov, SStore.set]
-            · intro y id t0 hf
-              have hly := hlk y
-              simp only [Env.lookup] at hly
-              simp only [NameMap.find] at hf
-              by_cases hy : y = x
-              · simp only [hy, if_true] at hf
-                cases hf
-                refine ⟨sx, wx, v1, htyx, hv1, ?_, by simp⟩
-                subst hy
-                simp only [if_true] at hly
-                cases hsl : Scope.lookup sc' y with
-                | none => simp [hsl] at hly
-                | some vv => simp [hsl] at hly; rw [hly]
-              · simp only [hy, if_false] at hf
-                obtain ⟨s, w, v, a1, a2, a3, a4⟩ := hrel y id t0 hf
-                have hlt := hbel y id t0 hf
-                have : id ≠ n1 := by omega
-                refine ⟨s, w, v, a1, a2, ?_, by simp only [this, if_false]; rw [hkeep1 id hlt]; exact a4⟩
-                simp only [hy, if_false, a3] at hly
-                cases hsl : Scope.lookup sc' y with
-                | none => simp [hsl] at hly
-                | some vv => simp [hsl] at hly; rw [hly]
-            · intro y id t0 hf
-              simp only [NameMap.find] at hf
-              by_cases hy : y = x
-              · simp only [hy, if_true] at hf; cases hf; omega
-              · simp only [hy, if_false] at hf
-                have := hbel y id t0 hf; omega
-            · intro i hi
-              simp only [List.mem_append, List.mem_singleton] at hi
-              rcases hi with hi | hi
-              · exact hnr1 i hi
-              · subst hi; simp
-          · cases h
-    | [], h => simp [lowerS] at h
-    | ⟨_, _ :: _⟩ :: _, h => simp [lowerS] at h
-    | ⟨_, []⟩ :: _ :: _, h => simp [lowerS] at h
-  | define _ _ => simp [lowerS] at h
-  | ifte _ _ _ => simp [lowerS] at h
-  | «for» _ _ _ _ _ _ => simp [lowerS] at h
-  | ret _ => simp [lowerS] at h
-
-
-
-/-! ### Statement lists, `return`, function bodies -/
-
-def lowerB (nm : NameMap) (next : Nat) : List Stmt → Option (NameMap × List SInstr × Nat)
-  | [] => some (nm, [], next)
-  | s :: ss =>
-    match lowerS nm next s with
-    | some (nm1, c1, n1) =>
-      match lowerB nm1 n1 ss with
-      | some (nm2, c2, n2) => some (nm2, c1 ++ c2, n2)
-      | none => none
-    | none => none
-
-/-- Model of Return.SSA: every result is moved into a fresh value. -/
-def lowerRet (nm : NameMap) (next : Nat) : List Expr → Option (List SArg × List SInstr × Nat)
-  | [] => some ([], [], next)
-  | e :: es =>
-    match lowerE nm e next with
-    | some (aa, t, ce, n1) =>
-      match numTy t with
-      | some (_, w) =>
-        match lowerRet nm (n1 + 1) es with
-        | some (as, cs, n2) => some (.var n1 w :: as, (ce ++ [⟨.mov, [aa], some (n1, w)⟩]) ++ cs, n2)
-        | none => none
-      | none => none
-    | none => none
-
-def lowerBody (nm : NameMap) (next : Nat) (stmts : List Stmt) (es : List Expr) : Option (List SInstr) :=
-  match lowerB nm next stmts with
-  | some (nm1, c1, n1) =>
-    match lowerRet nm1 n1 es with
-    | some (as, c2, _) => some ((c1 ++ c2) ++ [⟨.ret, as, none⟩])
-    | none => none
-  | none => none
-
-theorem NoRet_append {a b : List SInstr} (ha : NoRet a) (hb : NoRet b) : NoRet (a ++ b) := by
-  intro i hi
-  rcases List.mem_append.1 hi with h | h
-  · exact ha i h
-  · exact hb i h
-
-theorem lowerB_correct (P : Prog) : ∀ (ss : List Stmt) (nm nm' : NameMap) (next next' : Nat) (code : List SInstr)
-    (sc : Scope) (st : Nat → Nat), lowerB nm next ss = some (nm', code, next') →
-    RelTop nm sc st → Below nm next →
-    ∃ f sc' st', execB P f ss [sc] = some (.normal [sc']) ∧ ssaSteps code st = some st' ∧
-      RelTop nm' sc' st' ∧ Below nm' next' ∧ NoRet code
-  | [], nm, nm', next, next', code, sc, st, h, hrel, hbel => by
-    simp only [lowerB] at h
-    cases h
-    exact ⟨1, sc, st, by simp [execB], by simp [ssaSteps], hrel, hbel, by intro i hi; cases hi⟩
-  | s :: ss, nm, nm', next, next', code, sc, st, h, hrel, hbel => by
-    simp only [lowerB] at h
-    cases hs : lowerS nm next s with
-    | none => simp [hs] at h
-    | some r1 =>
-      obtain ⟨nm1, c1, n1⟩ := r1
-      simp only [hs] at h
-      cases hb : lowerB nm1 n1 ss with
-      | none => simp [hb] at h
-      | some r2 =>
-        obtain ⟨nm2, c2, n2⟩ := r2
-        simp only [hb] at h
-        cases h
-        obtain ⟨f1, sc1, st1, he1, hc1, hrel1, hbel1, hnr1⟩ := lowerS_correct P s nm nm1 next n1 c1 sc st hs hrel hbel
-        obtain ⟨f2, sc2, st2, he2, hc2, hrel2, hbel2, hnr2⟩ :=
-          lowerB_correct P ss nm1 nm' n1 next' c2 sc1 st1 hb hrel1 hbel1
-        refine ⟨max f1 f2 + 1, sc2, st2, ?_, ?_, hrel2, hbel2, NoRet_append hnr1 hnr2⟩
-        · simp only [execB, execS_mono P (Nat.le_max_left f1 f2) _ _ _ he1]
-          exact execB_mono P (Nat.le_max_right f1 f2) _ _ _ he2
-        · rw [ssaSteps_append, hc1]; simpa using hc2
-
-theorem lowerRet_correct (P : Prog) : ∀ (es : List Expr) (nm : NameMap) (next next' : Nat) (as : List SArg)
-    (code : List SInstr) (sc : Scope) (st : Nat → Nat), lowerRet nm next es = some (as, code, next') →
-    RelTop nm sc st → Below nm next →
-    ∃ f vals st', es.mapM (fun e => evalE P f e [sc]) = some vals ∧ ssaSteps code st = some st' ∧
-      as.map (argVal st') = vals.map Val.encode ∧ (∀ id, id < next → st' id = st id) ∧ NoRet code ∧
-      (∀ v ∈ vals, ∃ s w n, v = Val.num s w n)
-  | [], nm, next, next', as, code, sc, st, h, hrel, hbel => by
-    simp only [lowerRet] at h
-    cases h
-    refine ⟨0, [], st, by simp, by simp [ssaSteps], by simp, fun _ _ => rfl, ?_, ?_⟩
-    · intro i hi; cases hi
-    · intro v hv; cases hv
-  | e :: es, nm, next, next', as, code, sc, st, h, hrel, hbel => by
-    simp only [lowerRet] at h
-    cases hl : lowerE nm e next with
-    | none => simp [hl] at h
-    | some r =>
-      obtain ⟨aa, t, ce, n1⟩ := r
-      simp only [hl] at h
-      obtain ⟨s1, w1, v1, f1, st1, hty1, hv1, he1, hs1, harg1, hkeep1, hle1, hnr1, hid1⟩ :=
-        lowerE_correct P e nm next aa t ce n1 [sc] st hl hrel.rel hbel
-      simp only [hty1] at h
-      cases hr : lowerRet nm (n1 + 1) es with
-      | none => simp [hr] at h
-      | some r2 =>
-        obtain ⟨as2, cs, n2⟩ := r2
-        simp only [hr] at h
-        cases h
-        have hmov : evalOp .mov [(v1, w1)] w1 = some v1 := by simp [evalOp, Nat.mod_eq_of_lt hv1]
-        let st1' : Nat → Nat := fun j => if j = n1 then v1 else st1 j
-        have hrel1 : RelTop nm sc st1' := by
-          intro x id t0 hf
-          obtain ⟨s, w, v, a1, a2, a3, a4⟩ := hrel x id t0 hf
-          have hlt := hbel x id t0 hf
-          have : id ≠ n1 := by omega
-          exact ⟨s, w, v, a1, a2, a3, by simp only [st1', this, if_false]; rw [hkeep1 id hlt]; exact a4⟩
-        have hbel1 : Below nm (n1 + 1) := fun x id t0 hf => by have := hbel x id t0 hf; omega
-        obtain ⟨f2, vals, st2, hm, hc2, hargs, hkeep2, hnr2, hnum2⟩ :=
-          lowerRet_correct P es nm (n1 + 1) next' as2 cs sc st1' hr hrel1 hbel1
-        refine ⟨max f1 f2, .num s1 w1 v1 :: vals, st2, ?_, ?_, ?_, ?_, ?_, ?_⟩
-        · have e1 := evalE_mono P (Nat.le_max_left f1 f2) e [sc] _ he1
-          have e2 := mapM_mono (fun e => evalE P f2 e [sc]) (fun e => evalE P (max f1 f2) e [sc])
-            (fun a v hv => evalE_mono P (Nat.le_max_right f1 f2) a [sc] v hv) es vals hm
-          simp [List.mapM_cons, e1, e2]
-        · rw [ssaSteps_append, ssaSteps_append, hs1]
-          simp only [Option.bind_some]
-          have : ssaSteps [⟨SOp.mov, [aa], some (n1, w1)⟩] st1 = some st1' := by
-            simp [ssaSteps, harg1, hmov, SStore.set, st1']
-          rw [this]; simpa using hc2
-        · simp only [List.map_cons, hargs]
-          have h1 : st2 n1 = v1 := by rw [hkeep2 n1 (by omega)]; simp [st1']
-          simp [argVal, SStore.get, h1, Val.encode, Nat.mod_eq_of_lt hv1]
-        · intro id hid
-          rw [hkeep2 id (by omega)]
-          have : id ≠ n1 := by omega
-          simp only [st1', this, if_false]
-          exact hkeep1 id hid
-        · refine NoRet_append (NoRet_append hnr1 ?_) hnr2
-          intro i hi; simp only [List.mem_singleton] at hi; subst hi; simp
-        · intro v hv
-          rcases List.mem_cons.1 hv with h | h
-          · exact ⟨s1, w1, v1, h⟩
-          · exact hnum2 v h
-
-theorem mapM_length {α β : Type} (g : α → Option β) : ∀ (l : List α) (vs : List β),
-    l.mapM g = some vs → l.length = vs.length := by
-  intro l
-  induction l with
-  | nil => intro vs h; simp at h; subst h; rfl
-  | cons a l ih =>
-    intro vs h
-    simp only [List.mapM_cons] at h
-    cases ha : g a with
-    | none => simp [ha] at h
-    | some b =>
-      cases hl : l.mapM g with
-      | none => simp [ha, hl] at h
-      | some bs =>
-        simp [ha, hl] at h
-        subst h
-        simp [ih bs hl]
-
-theorem execB_append_normal (P : Prog) : ∀ (ss rest : List Stmt) (f f' : Nat) (env env' : Env) (o : Outcome),
-    execB P f ss env = some (.normal env') → execB P f' rest env' = some o →
-    ∃ F, execB P F (ss ++ rest) env = some o
-  | [], rest, f, f', env, env', o, h, h' => by
-    cases f with
-    | zero => simp [execB] at h
-    | succ f => simp only [execB] at h; cases h; exact ⟨f', by simpa using h'⟩
-  | s :: ss, rest, f, f', env, env', o, h, h' => by
-    cases f with
-    | zero => simp [execB] at h
-    | succ f =>
-      simp only [execB] at h
-      cases hs : execS P f s env with
-      | none => simp [hs] at h
-      | some r =>
-        simp only [hs] at h
-        cases r with
-        | returned vs => cases h
-        | normal env1 =>
-          obtain ⟨F, hF⟩ := execB_append_normal P ss rest f f' env1 env' o h h'
-          refine ⟨max f F + 1, ?_⟩
-          simp only [List.cons_append, execB, execS_mono P (Nat.le_max_left f F) _ _ _ hs]
-          exact execB_mono P (Nat.le_max_right f F) _ _ _ hF
-
-/-- Function bodies of the fragment: the SSA code the model of ssagen emits
-computes exactly what the reference interpreter computes. -/
-theorem lowerBody_correct (P : Prog) (nm : NameMap) (next : Nat) (stmts : List Stmt) (es : List Expr)
-    (steps : List SInstr) (sc : Scope) (st : Nat → Nat) (h : lowerBody nm next stmts es = some steps)
-    (hrel : RelTop nm sc st) (hbel : Below nm next) :
-    ∃ f vals, execB P f (stmts ++ [.ret es]) [sc] = some (.returned vals) ∧
-      ssaRun steps st = some (vals.map Val.encode) ∧ vals.length = es.length ∧
-      (∀ v ∈ vals, ∃ s w n, v = Val.num s w n) := by
-  simp only [lowerBody] at h
-  cases hb : lowerB nm next stmts with
-  | none => simp [hb] at h
-  | some r1 =>
-    obtain ⟨nm1, c1, n1⟩ := r1
-    simp only [hb] at h
-    cases hr : lowerRet nm1 n1 es with
-    | none => simp [hr] at h
-    | some r2 =>
-      obtain ⟨as, c2, n2⟩ := r2
-      simp only [hr] at h
-      cases h
-      obtain ⟨f1, sc1, st1, he1, hc1, hrel1, hbel1, hnr1⟩ := lowerB_correct P stmts nm nm1 next n1 c1 sc st hb hrel hbel
-      obtain ⟨f2, vals, st2, hm, hc2, hargs, _, hnr2, hnum⟩ := lowerRet_correct P es nm1 n1 n2 as c2 sc1 st1 hr hrel1 hbel1
-      have hret : execB P (f2 + 2) [.ret es] [sc1] = some (.returned vals) := by
-        simp [execB, execS, hm]
-      obtain ⟨F, hF⟩ := execB_append_normal P stmts [.ret es] f1 (f2 + 2) [sc] [sc1] _ he1 hret
-      refine ⟨F, vals, hF, ?_, (mapM_length _ es vals hm).symm, hnum⟩
-      rw [ssaRun_append _ _ (NoRet_append hnr1 hnr2), ssaSteps_append, hc1]
-      simp only [Option.bind_some, hc2]
-      simp [ssaRun, hargs]
-
-
-/-! ### Whole functions on raw wire patterns -/
-
-def lowerParams : List (String × Ty) → Nat → Option (NameMap × List (Nat × Nat))
-  | [], _ => some ([], [])
-  | (x, t) :: ps, i =>
-    match numTy t, lowerParams ps (i + 1) with
-    | some (_, w), some (nm, ins) => some ((x, (i, t)) :: nm, (i, w) :: ins)
-    | _, _ => none
-
-/-- `lower`: the SSA program (inputs, steps) the model of ssagen produces for a
-function `func(params) (results) { stmts; return es }` of the fragment. -/
-def lower (params : List (String × Ty)) (stmts : List Stmt) (es : List Expr) :
-    Option (List (Nat × Nat) × List SInstr) :=
-  match lowerParams params 0 with
-  | some (nm, ins) =>
-    match lowerBody nm params.length stmts es with
-    | some steps => some (ins, steps)
-    | none => none
-  | none => none
-
-theorem numTy_decode {t : Ty} {s : Bool} {w : Nat} (h : numTy t = some (s, w)) (n : Nat) :
-    t.decode n = .num s w (n % 2 ^ w) ∧ (t.decode n).hasTy t = true := by
-  have hpos : 0 < 2 ^ w := Nat.pos_of_ne_zero (by simp)
-  cases t <;> simp [numTy] at h <;> (obtain ⟨a, b⟩ := h; subst a; subst b; simp [Ty.decode, Val.hasTy, Nat.mod_lt _ hpos])
-
-theorem lowerParams_correct : ∀ (ps : List (String × Ty)) (i : Nat) (nm : NameMap) (ins : List (Nat × Nat))
-    (args : List Nat) (st : Nat → Nat), lowerParams ps i = some (nm, ins) → args.length = ps.length →
-    ∃ sc st', bindParams ps ((ps.zip args).map fun (p, n) => p.2.decode n) = some sc ∧
-      loadInputs ins args st = some st' ∧
-      (∀ x id t, nm.find x = some (id, t) → i ≤ id ∧ id < i + ps.length ∧
-        ∃ s w v, numTy t = some (s, w) ∧ v < 2 ^ w ∧ Scope.lookup sc x = some (.num s w v) ∧ st' id = v) ∧
-      (∀ id, id < i → st' id = st id)
-  | [], i, nm, ins, args, st, h, hlen => by
-    simp only [lowerParams] at h
-    cases h
+/-- Binding the parameters / loading the inputs. -/
+theorem lowerParams_sound : ∀ (ps : List (String × Ty)) (i : Nat) (sc : NScope) (ins : List (Nat × Nat))
+    (args : List Nat) (st : Nat → Nat), lowerParams ps i = some (sc, ins) → args.length = ps.length →
+    ∃ scv st', bindParams ps ((ps.zip args).map fun (p, n) => p.2.decode n) = some scv ∧
+      loadInputs ins args st = some st' ∧ ScopeRel st' sc scv ∧ BelowS (i + ps.length) sc ∧ Frame i st st'
+  | [], i, sc, ins, args, st, h, hlen => by
+    simp only [lowerParams, Option.some.injEq, Prod.mk.injEq] at h
+    obtain ⟨h1, h2⟩ := h
+    subst h1; subst h2
     cases args with
-    | nil => exact ⟨[], st, by simp [bindParams], by simp [loadInputs], by intro x id t hf; simp [NameMap.find] at hf,
-        fun _ _ => rfl⟩
+    | nil => exact ⟨[], st, by simp [bindParams], by simp [loadInputs], trivial, BelowS_nil _, Frame.refl _ _⟩
     | cons a as => simp at hlen
-  | (x, t) :: ps, i, nm, ins, args, st, h, hlen => by
+  | (x, t) :: ps, i, sc, ins, args, st, h, hlen => by
     cases args with
     | nil => simp at hlen
     | cons a as =>
       simp only [lowerParams] at h
-      cases hty : numTy t with
-      | none => simp [hty] at h
-      | some r =>
-        obtain ⟨s, w⟩ := r
+      cases hw : sbits t with
+      | none => simp [hw] at h
+      | some w =>
         cases hr : lowerParams ps (i + 1) with
-        | none => simp [hty, hr] at h
-        | some r2 =>
-          obtain ⟨nm2, ins2⟩ := r2
-          simp only [hty, hr] at h
-          cases h
+        | none => simp [hw, hr] at h
+        | some q =>
+          obtain ⟨sc2, ins2⟩ := q
+          simp only [hw, hr, Option.some.injEq, Prod.mk.injEq] at h
+          obtain ⟨h1, h2⟩ := h
+          subst h1; subst h2
           have hlen' : as.length = ps.length := by simpa using hlen
-          have hpos : 0 < 2 ^ w := Nat.pos_of_ne_zero (by simp)
-          obtain ⟨hdec, hhas⟩ := numTy_decode hty a
-          obtain ⟨sc2, st2, hb2, hl2, hrel2, hkeep2⟩ :=
-            lowerParams_correct ps (i + 1) nm2 ins2 as (fun j => if j = i then a % 2 ^ w else st j) hr hlen'
-          refine ⟨(x, .num s w (a % 2 ^ w)) :: sc2, st2, ?_, ?_, ?_, ?_⟩
-          · rw [hdec] at hhas
-            simp only [List.zip_cons_cons, List.map_cons, bindParams, hdec, hhas, if_true, hb2, Option.map_some]
+          let st1 : Nat → Nat := fun j => if j = i then a % 2 ^ w else st j
+          obtain ⟨scv2, st', hb2, hl2, hrel2, hbel2, hfr2⟩ := lowerParams_sound ps (i + 1) sc2 ins2 as st1 hr hlen'
+          have hsi : st' i = a % 2 ^ w := by rw [hfr2 i (by omega)]; simp [st1]
+          refine ⟨(x, t.decode a) :: scv2, st', ?_, ?_, ?_, ?_, ?_⟩
+          · simp only [List.zip_cons_cons, List.map_cons, bindParams, hasTy_decode hw, if_true, hb2, Option.map_some]
           · simp only [loadInputs, SStore.set]; exact hl2
-          · intro y id t0 hf
-            simp only [NameMap.find] at hf
-            by_cases hy : y = x
-            · simp only [hy, if_true] at hf
-              cases hf
-              refine ⟨Nat.le_refl _, by simp, s, w, a % 2 ^ w, hty, Nat.mod_lt _ hpos, by simp [Scope.lookup, hy], ?_⟩
-              rw [hkeep2 i (by omega)]; simp
-            · simp only [hy, if_false] at hf
-              obtain ⟨h1, h2, s', w', v', a1, a2, a3, a4⟩ := hrel2 y id t0 hf
-              refine ⟨by omega, by simp only [List.length_cons]; omega, s', w', v', a1, a2, by simp [Scope.lookup, hy, a3], a4⟩
-          · intro id hid
-            rw [hkeep2 id (by omega)]
-            have : id ≠ i := by omega
-            simp [this]
+          · refine ⟨rfl, ⟨w, hw, by rw [hsi]; exact Nat.mod_lt _ (two_pow_pos w), by rw [hsi, decode_mod hw]⟩, hrel2⟩
+          · refine BelowS.cons (by simp only [BelowB, List.length_cons]; omega) (fun p hp => ?_)
+            have := hbel2 p hp
+            exact this.mono (by simp only [List.length_cons]; omega)
+          · have hfr1 : Frame i st st1 := Frame_set (Nat.le_refl _)
+            exact hfr1.trans hfr2 (by omega)
 
-/-- (3) The two Lean semantics agree on the straight-line fragment: for a
-function `func(params) { stmts; return es }` whose parameters are intN/uintN,
-whose statements are `var x T = e` / `x = e` and whose expressions are built
-from variables, `+ - & | ^` and integer conversions (except intN -> wider
-uintM), evaluating the SSA code produced by `lower` — the Lean model of
-ssagen.go for this fragment — on raw input patterns gives exactly the result
-of the reference interpreter `runRaw`, for every input.
+/-- The pieces of a successful `lower`. -/
+theorem lower_inv {fuel : Nat} {fn : Func} {ins : List (Nat × Nat)} {steps : List SInstr}
+    (h : lower fuel fn = some (ins, steps)) :
+    ∃ sc r rs cm k, lowerParams fn.params 0 = some (sc, ins) ∧
+      lowerB fuel [sc] fn.params.length fn.body = some r ∧ r.tree.mat r.next = some (rs, cm, k) ∧
+      rs.length = fn.nres ∧ steps = r.code ++ cm ++ [⟨.ret, rs.map fun p => .var p.1 p.2, none⟩] := by
+  unfold lower at h
+  split at h
+  · cases h
+  · cases hp : lowerParams fn.params 0 with
+    | none => simp [hp] at h
+    | some q =>
+      obtain ⟨sc, ins0⟩ := q
+      simp only [hp] at h
+      cases hb : lowerB fuel [sc] fn.params.length fn.body with
+      | none => simp [hb] at h
+      | some r =>
+        simp only [hb] at h
+        cases hm : r.tree.mat r.next with
+        | none => simp [hm] at h
+        | some q2 =>
+          obtain ⟨rs, cm, k⟩ := q2
+          simp only [hm] at h
+          split at h
+          · rename_i hlen
+            simp only [Option.some.injEq, Prod.mk.injEq] at h
+            obtain ⟨h1, h2⟩ := h
+            subst h1
+            exact ⟨sc, r, rs, cm, k, rfl, hb, hm, hlen, h2.symm⟩
+          · cases h
 
-PARTIAL: the fragment has no literals/constants, no `* / % &^` shifts,
-comparisons or booleans, no control flow (if / for / calls), no arrays or
-structs; and `lower` is a hand-written model of the real AST -> SSA code (the
-real step lists are tied to `ssaEval` only differentially, checks/C03.py). -/
-theorem lower_correct_partial (params : List (String × Ty)) (stmts : List Stmt) (es : List Expr)
-    (ins : List (Nat × Nat)) (steps : List SInstr) (h : lower params stmts es = some (ins, steps))
-    (args : List Nat) (hlen : args.length = params.length) :
-    ∃ r, ssaEval (Nat → Nat) ins steps args = some r ∧
-      ∃ f, runRaw [⟨params, es.length, stmts ++ [.ret es]⟩] f 0 args = some r := by
-  simp only [lower] at h
-  cases hp : lowerParams params 0 with
-  | none => simp [hp] at h
-  | some r =>
-    obtain ⟨nm, ins0⟩ := r
-    simp only [hp] at h
-    cases hb : lowerBody nm params.length stmts es with
-    | none => simp [hb] at h
-    | some steps0 =>
-      simp only [hb] at h
-      cases h
-      obtain ⟨sc, st0, hbind, hload, hrel, _⟩ :=
-        lowerParams_correct params 0 nm ins args (SStore.empty : Nat → Nat) hp hlen
-      have hrelTop : RelTop nm sc st0 := fun x id t hf => (hrel x id t hf).2.2
-      have hbel : Below nm params.length := fun x id t hf => by have := (hrel x id t hf).2.1; omega
-      obtain ⟨f, vals, hexec, hssa, hvl, hnum⟩ :=
-        lowerBody_correct [⟨params, es.length, stmts ++ [.ret es]⟩] nm params.length stmts es steps sc st0 hb hrelTop hbel
-      refine ⟨vals.map Val.encode, by simp [ssaEval, hload, hssa], f, ?_⟩
-      have hrun : run [⟨params, es.length, stmts ++ [.ret es]⟩] f 0
-          ((params.zip args).map fun (p, n) => p.2.decode n) = some vals := by
-        unfold run
-        have hP : ([⟨params, es.length, stmts ++ [.ret es]⟩] : Prog)[0]? =
-            some ⟨params, es.length, stmts ++ [.ret es]⟩ := rfl
-        rw [hP]
-        simp only [hbind, hexec]
-        generalize es.length = k at hvl ⊢
-        subst hvl
-        match vals, hnum with
-        | [], _ => simp [packResults]
-        | [r], hn =>
-          obtain ⟨s, w, n, e⟩ := hn r (by simp)
-          subst e; simp [packResults]
-        | r1 :: r2 :: rest, _ => simp [packResults]
-      unfold runRaw
-      have hP : ([⟨params, es.length, stmts ++ [.ret es]⟩] : Prog)[0]? =
-          some ⟨params, es.length, stmts ++ [.ret es]⟩ := rfl
-      rw [hP]
-      have hne : ¬ args.length ≠ params.length := by simp [hlen]
-      simp only [hne, if_false, hrun, Option.map_some]
+theorem run_of_exec (fn : Func) (f : Nat) (args : List Nat) (sc : Scope) (vals : List Val)
+    (hlen : args.length = fn.params.length)
+    (hbind : bindParams fn.params ((fn.params.zip args).map fun (p, n) => p.2.decode n) = some sc)
+    (hexec : execB [fn] f fn.body [sc] = some (.returned vals)) (hvl : vals.length = fn.nres)
+    (hsc : ∀ v ∈ vals, ScalarV v) : runRaw [fn] f 0 args = some (vals.map Val.encode) := by
+  have hP : ([fn] : Prog)[0]? = some fn := rfl
+  have hrun : run [fn] f 0 ((fn.params.zip args).map fun (p, n) => p.2.decode n) = some vals := by
+    unfold run
+    rw [hP]
+    simp only [hbind, hexec]
+    generalize fn.nres = k at hvl ⊢
+    subst hvl
+    match vals, hsc with
+    | [], _ => simp [packResults]
+    | [r], hs =>
+      have := hs r (by simp)
+      cases r with
+      | agg _ => exact this.elim
+      | bool _ => simp [packResults]
+      | num _ _ _ => simp [packResults]
+    | r1 :: r2 :: rest, _ => simp [packResults]
+  unfold runRaw
+  rw [hP]
+  have hne : ¬ args.length ≠ fn.params.length := by simp [hlen]
+  simp only [hne, if_false, hrun, Option.map_some]
+
+/-- Soundness: whenever the SSA program `lower` produces evaluates (i.e. no
+division by zero on any path, taken or not), the reference interpreter is
+defined on the source function and delivers the same outputs. -/
+theorem lower_sound (fuel : Nat) (fn : Func) (ins : List (Nat × Nat)) (steps : List SInstr)
+    (h : lower fuel fn = some (ins, steps)) (args : List Nat) (hlen : args.length = fn.params.length)
+    (res : List (Nat × Nat)) (hrun : ssaEval (Nat → Nat) ins steps args = some res) :
+    ∃ f, runRaw [fn] f 0 args = some res := by
+  obtain ⟨sc, r, rs, cm, k, hp, hb, hm, hrl, hsteps⟩ := lower_inv h
+  subst hsteps
+  obtain ⟨scv, st0, hbind, hload, hrel0, hbel0, _⟩ :=
+    lowerParams_sound fn.params 0 sc ins args (SStore.empty : Nat → Nat) hp hlen
+  have hrel : Rel st0 [sc] [scv] := ⟨hrel0, trivial⟩
+  have hbel : Below fn.params.length [sc] :=
+    Below.cons (by simpa using hbel0) (fun _ h => by cases h)
+  have hok1 : AllOk true r.code := (lower_stmt_ok true fuel).2.1 fn.body [sc] _ r hb (Or.inl rfl)
+  have hok2 : AllOk true cm := mat_ok true r.tree r.next rs cm k hm
+  simp only [ssaEval, hload, Option.bind_some] at hrun
+  rw [List.append_assoc, ssaRun_append _ _ hok1.noRet] at hrun
+  cases hs1 : ssaSteps r.code st0 with
+  | none => simp [hs1] at hrun
+  | some st1 =>
+    simp only [hs1, Option.bind_some] at hrun
+    obtain ⟨_, _, _, htb, htbd, _, fi, o, hex, horel⟩ :=
+      (lower_stmt_sound [fn] fuel).2.1 fn.body [sc] _ r [scv] st0 st1 hb hrel hbel hs1
+    obtain ⟨_, _, hrsb, st2, vals0, hs2, _, hev, hmap, _⟩ := mat_sound r.tree r.next rs cm k st1 hm htb htbd
+    rw [ssaRun_append _ _ hok2.noRet, hs2] at hrun
+    simp only [Option.bind_some, ssaRun, if_true, Option.some.injEq] at hrun
+    have hres : res = vals0 := by
+      rw [← hrun, ← hmap, List.map_map]
+      rfl
+    cases o with
+    | normal env' =>
+      obtain ⟨hnone, _⟩ := horel
+      rw [hnone] at hev; cases hev
+    | returned vals =>
+      obtain ⟨hev', hsc⟩ := horel
+      rw [hev'] at hev
+      have hv0 : vals0 = vals.map Val.encode := (Option.some.inj hev).symm
+      have hvl : vals.length = fn.nres := by
+        have : (vals.map Val.encode).length = rs.length := by rw [← hv0, ← hmap]; simp
+        simpa [hrl] using this
+      exact ⟨fi, by rw [hres, hv0]; exact run_of_exec fn fi args scv vals hlen hbind hex hvl hsc⟩
+
+/-- Totality: without `/` and `%` in the source the SSA program always evaluates. -/
+theorem lower_total (fuel : Nat) (fn : Func) (ins : List (Nat × Nat)) (steps : List SInstr)
+    (h : lower fuel fn = some (ins, steps)) (hnd : noDivB fn.body = true) (args : List Nat)
+    (hlen : args.length = fn.params.length) : ∃ res, ssaEval (Nat → Nat) ins steps args = some res := by
+  obtain ⟨sc, r, rs, cm, k, hp, hb, hm, _, hsteps⟩ := lower_inv h
+  subst hsteps
+  obtain ⟨_, st0, _, hload, _, _, _⟩ :=
+    lowerParams_sound fn.params 0 sc ins args (SStore.empty : Nat → Nat) hp hlen
+  have hok1 : AllOk false r.code := (lower_stmt_ok false fuel).2.1 fn.body [sc] _ r hb (Or.inr hnd)
+  have hok2 : AllOk false cm := mat_ok false r.tree r.next rs cm k hm
+  have hok : AllOk false (r.code ++ cm) := AllOk_append hok1 hok2
+  obtain ⟨st2, hs⟩ := ssaSteps_total _ hok st0
+  refine ⟨(rs.map fun p => SArg.var p.1 p.2).map (argVal st2), ?_⟩
+  simp only [ssaEval, hload, Option.bind_some]
+  rw [ssaRun_append _ _ hok.noRet, hs]
+  simp [ssaRun]
+
+/-- The two Lean semantics agree on the fragment of `lower` (see the header of
+Model/MpclLower.lean): for every function `fn` on which the model of ssagen
+succeeds and every input,
+  * if the emitted SSA program evaluates, the reference interpreter is defined
+    and gives the same outputs;
+  * without `/ %` in the source the SSA program always evaluates (so both are
+    defined and equal). -/
+theorem lower_correct_partial (fuel : Nat) (fn : Func) (ins : List (Nat × Nat)) (steps : List SInstr)
+    (h : lower fuel fn = some (ins, steps)) (args : List Nat) (hlen : args.length = fn.params.length) :
+    (∀ res, ssaEval (Nat → Nat) ins steps args = some res → ∃ f, runRaw [fn] f 0 args = some res) ∧
+    (noDivB fn.body = true →
+      ∃ res, ssaEval (Nat → Nat) ins steps args = some res ∧ ∃ f, runRaw [fn] f 0 args = some res) := by
+  refine ⟨fun res hr => lower_sound fuel fn ins steps h args hlen res hr, fun hnd => ?_⟩
+  obtain ⟨res, hr⟩ := lower_total fuel fn ins steps h hnd args hlen
+  exact ⟨res, hr, lower_sound fuel fn ins steps h args hlen res hr⟩
 
 end Mpc.Mpcl.Ssa
